@@ -65,12 +65,12 @@ TrState ==
     /\ Ev.ok = 1
     /\ Ev.v \in 1..Len(vers)
     /\ LET mm == vers[Ev.v] IN
-        /\ Ev.look = mm
-        /\ Ev.fwd = Asc(mm)
-        /\ Ev.fwdo = OffsOf(mm, Ev.fwd)         \* (Ev.fwd is pinned to Asc(mm) by the line above)
-        /\ Ev.bwd = Reverse(Ev.fwd)             \* = Desc(mm)
-        /\ Ev.bwdo = OffsOf(mm, Ev.bwd)
-        /\ Ev.chk = Len(Ev.fwd)                 \* = Count(mm)
+        Holds(/\ Ev.look = mm
+              /\ Ev.fwd = Asc(mm)
+              /\ Ev.fwdo = OffsOf(mm, Ev.fwd)         \* (Ev.fwd is pinned to Asc(mm) by the line above)
+              /\ Ev.bwd = Reverse(Ev.fwd)             \* = Desc(mm)
+              /\ Ev.bwdo = OffsOf(mm, Ev.bwd)
+              /\ Ev.chk = Len(Ev.fwd))                \* = Count(mm)
     /\ UNCHANGED <<K, vers, its>>
 
 \* keys and offsets handed to the callback of Check(fn), in order
@@ -79,8 +79,7 @@ TrChkKeys ==
     /\ Ev.ok = 1
     /\ Ev.v \in 1..Len(vers)
     /\ LET mm == vers[Ev.v] IN
-        /\ Ev.ks = Asc(mm)
-        /\ Ev.offs = OffsOf(mm, Ev.ks)
+        Holds(Ev.ks = Asc(mm) /\ Ev.offs = OffsOf(mm, Ev.ks))
     /\ UNCHANGED <<K, vers, its>>
 
 Grow(s, n) == [i \in 1..(IF n > Len(s) THEN n ELSE Len(s)) |-> IF i <= Len(s) THEN s[i] ELSE NoIt]
@@ -107,14 +106,14 @@ TrItOp ==
                    [] Ev.op = "range"  -> CurRew
            i2 == IF Ev.op = "range" THEN [i EXCEPT !.c = c2, !.org = Ev.k, !.end = Ev.k2]
                  ELSE [i EXCEPT !.c = c2] IN
-        /\ Ev.op \in {"next", "prev", "seek", "rewind", "range"}
-        /\ c2.st = "in"  => Ev.res = c2.cur /\ Ev.off = mm[c2.cur] /\ Ev.eof = 0
-        /\ c2.st = "eof" => Ev.res = 0 /\ Ev.off = 0 /\ Ev.eof = 1
-        /\ c2.st = "rew" => Ev.eof = 0
-        \* the declarative meaning holds as well (operators of the exhaustive spec)
-        /\ Ev.op = "next" => NextMeaning(mm, i.c, c2, i.org, i.end)
-        /\ Ev.op = "prev" => PrevMeaning(mm, i.c, c2, i.org, i.end)
-        /\ Ev.op = "seek" => SeekMeaning(mm, Ev.k, c2, i.org, i.end)
+        /\ Holds(/\ Ev.op \in {"next", "prev", "seek", "rewind", "range"}
+                 /\ c2.st = "in"  => Ev.res = c2.cur /\ Ev.off = mm[c2.cur] /\ Ev.eof = 0
+                 /\ c2.st = "eof" => Ev.res = 0 /\ Ev.off = 0 /\ Ev.eof = 1
+                 /\ c2.st = "rew" => Ev.eof = 0
+                 \* the declarative meaning holds as well (operators of the exhaustive spec)
+                 /\ Ev.op = "next" => NextMeaning(mm, i.c, c2, i.org, i.end)
+                 /\ Ev.op = "prev" => PrevMeaning(mm, i.c, c2, i.org, i.end)
+                 /\ Ev.op = "seek" => SeekMeaning(mm, Ev.k, c2, i.org, i.end))
         /\ its' = [its EXCEPT ![Ev.it] = i2]
     /\ UNCHANGED <<K, vers>>
 
